@@ -24,6 +24,24 @@ func main() {
 			os.Exit(cmdReplay(os.Args[3]))
 		}
 		os.Exit(cmdCheck(os.Args[2:]))
+	case "native":
+		// gosx native <pkg> <harness> [replay.json] [tags]
+		nat := sx.NewNative("/repo", "/verif/harness", "/verif/.work")
+		tags := ""
+		replay := ""
+		if len(os.Args) > 4 {
+			replay = os.Args[4]
+		}
+		if len(os.Args) > 5 {
+			tags = os.Args[5]
+		}
+		bin, err := nat.Build(os.Args[2], tags, false)
+		if err != nil {
+			fmt.Println(err)
+			os.Exit(2)
+		}
+		no, err := nat.Run(bin, os.Args[3], replay, 1)
+		fmt.Println(no.Outcome, err)
 	case "conform":
 		cmdConform(os.Args[2:])
 	default:
